@@ -95,7 +95,12 @@ def run_case(case, prefix):
             for k in range(n):
                 node = H.out_stanza(k, name)
                 sent.setdefault(name, []).append(H.node_key(node))
-                w.stack.send(H.NodeEntity(node))
+                if case.get("entry") == "coder":
+                    # a sender that hands stanzas to the coder layer itself (a stack whose top is the coder, or a
+                    # layer above it that does not serialise its callers): no lock of an upper layer protects it
+                    w.coder.send(node)
+                else:
+                    w.stack.send(H.NodeEntity(node))
         return app
 
     def pinger():
@@ -194,6 +199,8 @@ def cases_for(tier):
         {"apps": [2], "server_pings": 1},
         {"apps": [1], "direct_ping": 1, "server_pings": 1},
         {"apps": [1], "early": 1},
+        {"apps": [1, 1], "entry": "coder"},
+        {"apps": [2, 1], "entry": "coder"},
     ]
     if not quick:
         cases += [
@@ -203,6 +210,8 @@ def cases_for(tier):
             {"apps": [2, 2], "variant": "XX"},
             {"apps": [1, 1, 1, 1]},
             {"apps": [1, 1], "early": 2, "variant": "XX"},
+            {"apps": [1, 1, 1], "entry": "coder"},
+            {"apps": [1, 1], "entry": "coder", "direct_ping": 1},
         ]
     return cases
 
@@ -223,6 +232,8 @@ CORE2 = [
     {"apps": [2, 2], "variant": "XX"},
     {"apps": [2, 1, 1]},
     {"apps": [1, 1, 1, 1]},
+    {"apps": [1, 1], "entry": "coder"},
+    {"apps": [2, 1], "entry": "coder"},
 ]
 
 
